@@ -251,6 +251,7 @@ def step (st : St) (args : List String) : St × String :=
     | some s => (st, showList "fdt" (sortNat s.fdtTois))
     | none => (st, "bad-op")
   | "admission" :: rest => (st, Admit.step rest)
+  | "admissionc" :: rest => (st, Admit.stepCenc rest)
   | ["wire", toi, tsi] =>
     match nat? toi, nat? tsi with
     | some toi, some tsi =>
